@@ -155,6 +155,88 @@ func (c19) Plan(tier string, seed int64) []mon.Workload {
 	return []mon.Workload{
 		{Name: "paramdefs", N: seqCount(len(c19Names)*len(c19Kinds), mp), Exhaustive: true},
 		{Name: "calls", N: int64(len(c19ValidLists(mp))) * seqCount(len(c19ArgNames), ma), Exhaustive: true},
+		{Name: "typed-getters", N: int64(len(c19Getters) * len(c19Lits) * 3), Exhaustive: true},
+	}
+}
+
+// typed getters: GetParamInt/Float/Bool/String/List/Map must hand back the
+// argument bound to the parameter when it has the getter's type and report an
+// error otherwise - never a zero value in its place.
+var c19Getters = []string{"int", "float", "bool", "string", "list", "map"}
+var c19Lits = []struct {
+	Text string
+	Type string
+	Val  any
+}{
+	{"7", "int", int64(7)}, {"-3", "int", int64(-3)}, {"2.5", "float", 2.5}, {"true", "bool", true}, {"false", "bool", false},
+	{"\"s\"", "string", "s"}, {"\"\"", "string", ""}, {"[1, \"a\"]", "list", []any{int64(1), "a"}}, {"[]", "list", []any{}},
+	{"{\"k\": 1}", "map", map[string]any{"k": int64(1)}}, {"nil", "nil", nil},
+}
+
+func (c19) typedGetter(c *mon.Ctx, i int64) {
+	how := int(i % 3) // positional, named, default
+	i /= 3
+	lit := c19Lits[i%int64(len(c19Lits))]
+	getter := c19Getters[i/int64(len(c19Lits))]
+	params := []*runtimev2.Param{{Name: "a"}, {Name: "b", Val: func() any { return lit.Val }}}
+	var got any
+	var gerr *errchain.PlError
+	idx := 0
+	src := "f(" + lit.Text + ")"
+	switch how {
+	case 1:
+		src = "f(a = " + lit.Text + ")"
+	case 2:
+		src = "f(0)"
+		idx = 1 // read the defaulted parameter b
+	}
+	fn := &runtimev2.Fn{
+		CallCheck: func(ctx *runtimev2.Task, e *ast.CallExpr) *errchain.PlError { return runtimev2.CheckPassParam(ctx, e, params) },
+		Call: func(ctx *runtimev2.Task, e *ast.CallExpr) *errchain.PlError {
+			switch getter {
+			case "int":
+				got, gerr = runtimev2.GetParamInt(ctx, e, params, idx)
+			case "float":
+				got, gerr = runtimev2.GetParamFloat(ctx, e, params, idx)
+			case "bool":
+				got, gerr = runtimev2.GetParamBool(ctx, e, params, idx)
+			case "string":
+				got, gerr = runtimev2.GetParamString(ctx, e, params, idx)
+			case "list":
+				got, gerr = runtimev2.GetParamList(ctx, e, params, idx)
+			case "map":
+				got, gerr = runtimev2.GetParamMap(ctx, e, params, idx)
+			}
+			return nil
+		},
+	}
+	var pan any
+	func() {
+		defer func() { pan = recover() }()
+		s, err := engine.ParseV2("c19.p", src, map[string]*runtimev2.Fn{"f": fn})
+		if err != nil {
+			pan = "rejected at load: " + err.Error()
+			return
+		}
+		if o := drive.RunV2(s, &drive.RunState{Budget: 10000}); o.Panic != nil {
+			pan = o.Panic
+		}
+	}()
+	c.Eval(1)
+	key := fmt.Sprintf("GetParam%s on %s via %s", getter, lit.Text, []string{"positional", "named", "default"}[how])
+	c.Nontrivial(key)
+	c.Cell("getter_cells", getter+"/"+lit.Type)
+	cs := map[string]any{"getter": getter, "call": src}
+	match := getter == lit.Type
+	switch {
+	case pan != nil:
+		c.Violate("typed-getter-panic", fmt.Sprintf("%s: %v", key, pan), cs)
+	case match && gerr != nil:
+		c.Violate("typed-getter-refused-right-type", fmt.Sprintf("%s: %v", key, gerr), cs)
+	case match && !ref.DeepEqual(got, lit.Val, false):
+		c.Violate("typed-getter-wrong-value", fmt.Sprintf("%s returned %s, the argument is %s", key, ref.Show(got), ref.Show(lit.Val)), cs)
+	case !match && gerr == nil:
+		c.Violate("typed-getter-accepted-wrong-type", fmt.Sprintf("%s returned %s without an error", key, ref.Show(got)), cs)
 	}
 }
 
@@ -262,6 +344,9 @@ func (c19) Describe(c *mon.Ctx, workload string, i int64) any {
 	if workload == "paramdefs" {
 		return map[string]any{"signature": sigString(c19List(i, mp))}
 	}
+	if workload == "typed-getters" {
+		return map[string]any{"index": i}
+	}
 	nCalls := seqCount(len(c19ArgNames), ma)
 	l := c19ValidLists(mp)[i/nCalls]
 	return map[string]any{"signature": sigString(l), "call": callText(decodeSeq(i%nCalls, len(c19ArgNames), ma))}
@@ -298,6 +383,10 @@ func (k c19) Run(c *mon.Ctx, workload string, i int64) {
 		return
 	}
 
+	if workload == "typed-getters" {
+		k.typedGetter(c, i)
+		return
+	}
 	nCalls := seqCount(len(c19ArgNames), ma)
 	l := c19ValidLists(mp)[i/nCalls]
 	args := decodeSeq(i%nCalls, len(c19ArgNames), ma)
